@@ -27,10 +27,10 @@ func c11BigReduced(i, n int) bool { return i < 64 || i >= n-320 || i%251 == 0 }
 
 func c11SpaceFlip(c *fw.Ctx) {
 	type job struct {
-		p              c11Params
-		path           int
-		chunk, chunks  int
-		reduced        bool
+		p             c11Params
+		path          int
+		chunk, chunks int
+		reduced       bool
 	}
 	var jobs []job
 	for shape := 0; shape < 5; shape++ {
@@ -53,8 +53,8 @@ func c11SpaceFlip(c *fw.Ctx) {
 	bigAlgs, bigChunks := []string{dns.HmacSHA1, dns.HmacSHA256}, 16
 	rule := "every single-bit flip of the signed octets of shapes query/reply/opt/compressed/noquestion × 5 algorithms × request MAC {none,20,64} × timers-only × other data × name case {lower, mixed} × path {secret, provider}; near-64-KiB shape × {sha1,sha256} × timers-only: all bits of the first 64 octets, of the last 320 octets and of every 251st octet"
 	if c.Thorough {
-		bigAlgs, bigChunks = []string{dns.HmacSHA1, dns.HmacSHA256, dns.HmacSHA512}, 1024
-		rule = "every single-bit flip of the signed octets of all 6 shapes (near-64-KiB shape: × {sha1,sha256,sha512} × timers-only, request MAC 20) and, for the small shapes, × 5 algorithms × request MAC {none,20,64} × timers-only × other data × name case {lower, mixed} × path {secret, provider}"
+		bigAlgs, bigChunks = []string{dns.HmacSHA1, dns.HmacSHA512}, 1024
+		rule = "every single-bit flip of the signed octets of all 6 shapes (near-64-KiB shape: × {sha1,sha512} × timers-only, request MAC 20) and, for the small shapes, × 5 algorithms × request MAC {none,20,64} × timers-only × other data × name case {lower, mixed} × path {secret, provider}"
 	}
 	for _, alg := range bigAlgs {
 		for _, timers := range []bool{false, true} {
